@@ -72,17 +72,20 @@ type tally struct {
 	evaluations int
 	children    int
 	notFired    int
-	spurious    int             // fault runs with additional, not enumerated machine losses
-	firedKeys   map[string]bool // program|label|variant
-	firedFine   map[string]bool // program|mode|label|variant|victim
-	pairFired   map[string]bool
-	outcomes    map[string]int
-	perMethod   map[string]int
-	maxMs       int64
+	spurious    int // fault runs with additional, not enumerated machine losses
+	// spaced-losses histories
+	scenarioRuns, scenarioRounds, scenarioKills int
+	scenarioFull                                map[string]bool // histories in which all rounds ran with both kills
+	firedKeys                                   map[string]bool // program|label|variant
+	firedFine                                   map[string]bool // program|mode|label|variant|victim
+	pairFired                                   map[string]bool
+	outcomes                                    map[string]int
+	perMethod                                   map[string]int
+	maxMs                                       int64
 }
 
 var tl = &tally{firedKeys: map[string]bool{}, firedFine: map[string]bool{}, pairFired: map[string]bool{},
-	outcomes: map[string]int{}, perMethod: map[string]int{}}
+	outcomes: map[string]int{}, perMethod: map[string]int{}, scenarioFull: map[string]bool{}}
 
 func main() {
 	flag.Parse()
@@ -217,6 +220,21 @@ func main() {
 	progSizes := map[string]int{}
 	var singles []fcase
 	singleByID := map[int]fcase{}
+	// spaced-losses histories (both tiers): one-shard and two-shard producer
+	if *flagOnly == "" || *flagOnly == "reuse" {
+		if infos["reuse"] == nil {
+			ev.Fatal("program reuse missing")
+		}
+		inf1 := *infos["reuse"] // same rows: the data do not depend on the shard count
+		inf1.name = "reuse1"
+		infos["reuse1"] = &inf1
+		for _, prog := range []string{"reuse1", "reuse"} {
+			c := fcase{ID: id, Prog: prog, Mode: "M2S", Scenario: "spaced", Expected: infos[prog].expected}
+			id++
+			singles = append(singles, c)
+			singleByID[c.ID] = c
+		}
+	}
 	for _, p := range progs[:nSingle] {
 		inf := infos[p.name]
 		n0 := len(singles)
@@ -274,7 +292,9 @@ func main() {
 		"single faults = every label x {before, after, afterreply} (+ Worker.Read: cut of the reply at byte 0, len/2, len-1 and at the ends of encoded batches: all of them for final-scan reads, first/median/last otherwise) x victim {callee; for Worker.Run and for final-scan reads also every other machine that is up} x {M1, M2}; "+
 		"quick: 3 smallest programs, thorough: all 6 plus, for the two smallest, every pair (fired single fault, fault at the first call to a live machine of every method:task/partition in the history observed after it fired); each case = Run + complete scan in a child process. "+
 		"A case is non-trivial iff every configured fault fired (its label occurred in that run and the victim existed); cases that do not fire are retried up to %d times and are not evidence. "+
-		"distinct_nontrivial = distinct (program, label, variant[, other-victim]) over fired single faults + distinct fired pairs", nFreeRuns, maxAttempts)
+		"Worker.Run/Compile/Stat additionally get the variant replylate (handler ran, machine dies, the successful reply is delivered only after the driver has seen the machine stop). "+
+		"Both tiers also run 2 spaced-losses histories under the production limit (M2S; producer f with 1 and with 2 shards): r=Run(f), then %d rounds of {kill every live machine while idle, wait until r's tasks are LOST, Run(g,r)+scan while the replacement receiving Worker.Run for r's shard-0 task is killed once}; every round must succeed with the reference rows; a history is non-trivial iff all rounds ran and both kills happened in each. "+
+		"distinct_nontrivial = distinct (program, label, variant[, other-victim]) over fired single faults + distinct fired pairs + complete spaced-losses histories", nFreeRuns, maxAttempts, spacedRounds)
 	sizes := map[string]interface{}{}
 	for _, p := range progs {
 		inf := infos[p.name]
@@ -282,7 +302,11 @@ func main() {
 	}
 	r.Finish(ev.Coverage{
 		"evaluations":                         tl.evaluations,
-		"distinct_nontrivial":                 len(tl.firedKeys) + len(tl.pairFired),
+		"distinct_nontrivial":                 len(tl.firedKeys) + len(tl.pairFired) + len(tl.scenarioFull),
+		"spaced_losses_histories_run":         tl.scenarioRuns,
+		"spaced_losses_histories_complete":    len(tl.scenarioFull),
+		"spaced_losses_rounds_succeeded":      tl.scenarioRounds,
+		"spaced_losses_machines_killed":       tl.scenarioKills,
 		"fired_single_distinct":               len(tl.firedKeys),
 		"fired_single_fine":                   len(tl.firedFine),
 		"fired_pairs_distinct":                len(tl.pairFired),
@@ -363,8 +387,14 @@ func singlePoints(inf *progInfo) []vsys.Fault {
 	var out []vsys.Fault
 	for _, l := range inf.alphabet {
 		vars := []string{"before", "after", "afterreply"}
-		if methodOf(l) == "Worker.Read" {
+		switch methodOf(l) {
+		case "Worker.Read":
 			vars = append(vars, readVariants(inf.readLen[stripOcc(l)], inf.bounds[stripOcc(l)], inf.scanOnly[l])...)
+		case "Worker.Run", "Worker.Compile", "Worker.Stat":
+			// the successful reply arrives after the driver has seen the machine
+			// stop: the window between a call's completion and the driver
+			// recording it
+			vars = append(vars, "replylate")
 		}
 		for _, v := range vars {
 			out = append(out, vsys.Fault{Label: l, Variant: v})
@@ -408,9 +438,12 @@ func secondPoints(res cresult, inf *progInfo) []vsys.Fault {
 		}
 		seen[stripOcc(l)] = true
 		vars := []string{"before", "after", "afterreply"}
-		if methodOf(l) == "Worker.Read" {
+		switch methodOf(l) {
+		case "Worker.Read":
 			// a recomputed partition has the same length as in a failure-free run
 			vars = append(vars, readVariants(inf.readLen[stripOcc(l)], inf.bounds[stripOcc(l)], false)...)
+		case "Worker.Run":
+			vars = append(vars, "replylate")
 		}
 		for _, v := range vars {
 			out = append(out, vsys.Fault{Label: l, Variant: v})
